@@ -6,8 +6,8 @@
    the failureThreshold expression, WHICH threshold is handed to
    newReplicationErrors, the status switch arms, the order of the
    expectedErrors literals, and the if/return skeletons of the two Cause
-   methods and canReturnEarly (the hand model below is only claimed for these
-   skeletons: it is undefined otherwise).
+   methods and canReturnEarly (that they still have the modelled shape is the
+   theorem C23_source_shape).
    Executable definitions only. *)
 From Coq Require Import ZArith List Bool Lia String.
 Import ListNotations.
@@ -126,10 +126,12 @@ Definition skeleton_ok : bool :=
   && list_eqb string_pair_eqb canReturnEarly_skeleton expected_canReturnEarly_skeleton.
 
 (* replicationErrors.Cause with es.threshold = thr. None = the model does
-   not cover the current source (unknown names / changed skeleton). *)
+   not cover the current source (unknown names in the expectedErrors literal).
+   The model is NOT switched off when the if/return skeletons change (so the
+   correspondence check keeps localising a behavioural difference); instead
+   [skeleton_ok = true] is a theorem of Properties/C23.v. *)
 Definition repl_cause (thr : Z) (s : sst) : option cause :=
-  if negb skeleton_ok then None
-  else if fail s =? 0 then Some CUnknown
+  if fail s =? 0 then Some CUnknown
   else match exp_entries replCause_order s with
        | None => None
        | Some es =>
@@ -263,6 +265,16 @@ Definition kinds_for (s : nat) (rs : list resp) : list okind :=
 (* number of responses series s received *)
 Definition responses_of (s : nat) (rs : list resp) : Z := Z.of_nat (List.length (kinds_for s rs)).
 
+(* replicas that stored series s *)
+Definition successes_of (s : nat) (rs : list resp) : Z :=
+  Z.of_nat (List.length (filter is_ok (kinds_for s rs))).
+
+(* the write quorum, stated independently of the source: a majority of the
+   replicas, except that replication factor 2 is satisfied by one copy; an
+   already replicated request addresses one replica *)
+Definition spec_quorum (rf : Z) : Z := if rf =? 2 then 1 else rf / 2 + 1.
+Definition spec_threshold (rf rep : Z) : Z := if rep =? 0 then spec_quorum rf else 1.
+
 (* failures after which quorum q is out of reach among nrep replicas *)
 Definition spec_ft (nrep q : Z) : Z := nrep - q + 1.
 
@@ -278,14 +290,30 @@ Definition corr_ok (c : case) : bool :=
 Definition only_conflict_unavailable (ws : list write) : bool :=
   forallb (fun w => match snd w with KOther => false | _ => true end) ws.
 
+(* The status as a function of WHAT the replicas answered, not of the order:
+   200 iff every series reached quorum; otherwise 409 iff every series that
+   missed quorum is blocked by conflicts alone (>= ft conflicts: no retry can
+   help); otherwise 503 (some failed series can still succeed on retry).
+   It is the only order-independent reading of "409 only if conflicts alone
+   make quorum impossible, 503 when retryable, never 500" that agrees with the
+   early return on conflicts; theorem C23_status_is_spec proves the fan-out
+   computes exactly this. *)
+Definition spec_status (n : nat) (q ft : Z) (rs : list resp) : Z :=
+  if forallb (fun s => successes_of s rs >=? q) (seq 0 n) then 200
+  else if forallb (fun s => (successes_of s rs >=? q) || (conflicts_of s rs >=? ft)) (seq 0 n) then 409
+  else 503.
+
 Definition pred_ok (c : case) : bool :=
   match c with
   | CFan rf rep place ws status =>
-      if rep >? rf then true else
-      let rs := resps_of place ws in
-      let ft := spec_ft (n_replicas rf rep) (success_threshold rf rep) in
-      let permanent := existsb (fun s => conflicts_of s rs >=? ft) (seq 0 (List.length place)) in
-      (negb (status =? 500) || negb (only_conflict_unavailable ws))
-      && (negb (status =? 409) || permanent)
-      && ((status =? 200) || permanent || (status =? 503) || negb (only_conflict_unavailable ws))
+      if rep >? rf then true
+      else if Nat.eqb (List.length place) 0 then true
+      else
+        let rs := resps_of place ws in
+        let q := spec_threshold rf rep in
+        let ft := spec_ft (n_replicas rf rep) q in
+        if only_conflict_unavailable ws then status =? spec_status (List.length place) q ft rs
+        else
+          (* unknown errors are outside the property's quantifier: only "409 implies a blocked series" is demanded *)
+          negb (status =? 409) || existsb (fun s => conflicts_of s rs >=? ft) (seq 0 (List.length place))
   end.
